@@ -9,6 +9,7 @@
 //!   recompose_<T>   accepted RDATA re-composes to octets that parse to an equal value
 //!   canonical_<T>   compose_canonical_rdata == wire form with exactly the RFC 4034 6.2 /
 //!                   RFC 6840 5.1 names lower-cased
+//!   opt_len_<OPTION> / opt_roundtrip_<OPTION>  every EDNS option type, see mod edns
 //!   ctor_long_<T>   constructor accepted a value whose RDATA exceeds 65535 octets
 //!   ctor_reparse_<T> constructor accepted a value that parse rejects after compose
 use domain::base::charstr::CharStr;
@@ -752,6 +753,366 @@ mod irregular {
     }
 }
 
+mod edns {
+    //! Every EDNS option type of src/base/opt.  Arbitrary option octets are parsed
+    //! first (so odd-but-accepted contents are reached), what parses is re-composed:
+    //!   opt_len_<OPTION>        compose_len() == octets written by compose_option()
+    //!   opt_roundtrip_<OPTION>  composed option parses to an equal option; OPT data built
+    //!                           from several options (Opt::push, OptBuilder in a message)
+    //!                           iterates as the same option list
+    use super::*;
+    use domain::base::iana::{ExtendedErrorCode, OptionCode};
+    use domain::base::opt::{
+        AllOptData, Chain, ClientSubnet, ComposeOptData, Cookie, Dau, Dhu, Expire, ExtendedError, KeyTag, N3u, Nsid,
+        Opt, OptData, Padding, TcpKeepalive, UnknownOptData,
+    };
+    use domain::base::opt::cookie::{ClientCookie, ServerCookie};
+    use domain::base::opt::keepalive::IdleTimeout;
+    use std::net::IpAddr;
+
+    type AO<'a> = AllOptData<&'a [u8], Name<&'a [u8]>>;
+
+    pub fn oname<O, N>(o: &AllOptData<O, N>) -> &'static str {
+        match o {
+            AllOptData::Nsid(_) => "NSID", AllOptData::Dau(_) => "DAU", AllOptData::Dhu(_) => "DHU", AllOptData::N3u(_) => "N3U",
+            AllOptData::ClientSubnet(_) => "SUBNET", AllOptData::Expire(_) => "EXPIRE", AllOptData::Cookie(_) => "COOKIE",
+            AllOptData::TcpKeepalive(_) => "KEEPALIVE", AllOptData::Padding(_) => "PADDING", AllOptData::Chain(_) => "CHAIN",
+            AllOptData::KeyTag(_) => "KEYTAG", AllOptData::ExtendedError(_) => "EXTERR", AllOptData::Other(_) => "UNKNOWN",
+            _ => "OTHER",
+        }
+    }
+    fn cname(code: u16) -> &'static str {
+        match code { 3 => "NSID", 5 => "DAU", 6 => "DHU", 7 => "N3U", 8 => "SUBNET", 9 => "EXPIRE", 10 => "COOKIE", 11 => "KEEPALIVE",
+                     12 => "PADDING", 13 => "CHAIN", 14 => "KEYTAG", 15 => "EXTERR", _ => "UNKNOWN" }
+    }
+    const CODES: [u16; 17] = [3, 5, 6, 7, 8, 9, 10, 11, 12, 13, 14, 15, 0, 1, 16, 4711, 65535];
+
+    fn frame(code: u16, data: &[u8]) -> Vec<u8> {
+        let mut raw = code.to_be_bytes().to_vec();
+        raw.extend_from_slice(&(data.len() as u16).to_be_bytes());
+        raw.extend_from_slice(data);
+        raw
+    }
+    fn written<T: ComposeOptData + ?Sized>(o: &T) -> Result<(u16, Vec<u8>), String> {
+        catch_mut(|| { let l = o.compose_len(); let mut w: Vec<u8> = Vec::new(); o.compose_option(&mut w).unwrap(); (l, w) })
+    }
+    /// equality of two parsed options: the type's own == where it has one, the
+    /// composed octets otherwise; the variant must agree in any case
+    fn same(a: &AO, b: &AO) -> bool {
+        let bytes = || written(a).ok().map(|x| x.1) == written(b).ok().map(|x| x.1);
+        match (a, b) {
+            (AllOptData::Nsid(x), AllOptData::Nsid(y)) => x == y,
+            (AllOptData::Dau(x), AllOptData::Dau(y)) => x == y,
+            (AllOptData::Dhu(x), AllOptData::Dhu(y)) => x == y,
+            (AllOptData::N3u(x), AllOptData::N3u(y)) => x == y,
+            (AllOptData::ClientSubnet(x), AllOptData::ClientSubnet(y)) => x == y,
+            (AllOptData::Expire(x), AllOptData::Expire(y)) => x == y,
+            (AllOptData::Cookie(x), AllOptData::Cookie(y)) => x == y,
+            (AllOptData::TcpKeepalive(x), AllOptData::TcpKeepalive(y)) => x == y,
+            (AllOptData::Padding(_), AllOptData::Padding(_)) => bytes(),
+            (AllOptData::Chain(x), AllOptData::Chain(y)) => x == y && bytes(),
+            (AllOptData::KeyTag(x), AllOptData::KeyTag(y)) => x == y,
+            (AllOptData::ExtendedError(x), AllOptData::ExtendedError(y)) => x == y && bytes(),
+            (AllOptData::Other(x), AllOptData::Other(y)) => x.code() == y.code() && x.as_slice() == y.as_slice(),
+            _ => false,
+        }
+    }
+    /// parse one framed option the way Opt::iter does
+    fn parse_one<'a>(raw: &'a [u8]) -> Result<Option<Result<AO<'a>, ParseError>>, String> {
+        catch_mut(|| {
+            let opt = match Opt::from_octets(raw) { Ok(o) => o, Err(e) => return Some(Err(e)) };
+            let mut it = opt.iter::<AO<'a>>();
+            let first = it.next();
+            match first { Some(Ok(o)) => { if it.next().is_some() { Some(Err(ParseError::form_error("second option"))) } else { Some(Ok(o)) } }, other => other }
+        })
+    }
+
+    fn utf8ish(r: &mut Rng) -> Vec<u8> {
+        match r.below(12) {
+            0 => vec![],
+            1 => b"plain ascii text".to_vec(),
+            2 => "caf\u{e9} \u{20ac} \u{1f600}".as_bytes().to_vec(),     // valid multi-byte
+            3 => b"caf\xe9".to_vec(),                                        // Latin-1: invalid UTF-8
+            4 => vec![0x80],                                                 // lone continuation
+            5 => vec![b'a', 0xe2, 0x82],                                     // truncated sequence
+            6 => vec![0xc0, 0xaf],                                           // overlong
+            7 => vec![0xed, 0xa0, 0x80],                                     // surrogate
+            8 => vec![0xf4, 0x90, 0x80, 0x80, b'x'],                         // above U+10FFFF
+            9 => vec![0],
+            10 => { let n = 200 + r.below(400) as usize; (0..n).map(|_| b'a' + r.below(26) as u8).collect() }
+            _ => { let n = r.below(12) as usize; r.bytes(n) }
+        }
+    }
+    fn gen_data(r: &mut Rng, code: u16) -> Vec<u8> {
+        let odd = r.chance(1, 6);
+        match code {
+            5 | 6 | 7 | 14 => { let n = 2 * match r.below(5) { 0 => 0, 1 => 1, 2 => 300, _ => r.below(8) as usize } + odd as usize; r.bytes(n) }
+            8 => {
+                let fam = if r.chance(1, 10) { *r.pick(&[0u16, 3, 256]) } else { 1 + r.below(2) as u16 };
+                let max = if fam == 1 { 32 } else { 128 };
+                let src = match r.below(4) { 0 => *r.pick(&[0u8, 1, 7, 8, 9, 24, 31, 32, 33, 64, 127, 128, 129, 255]), 1 => max, _ => r.below(max as u64 + 1) as u8 };
+                let scope = match r.below(3) { 0 => 0, 1 => r.u8(), _ => src };
+                let nb = (src as usize + 7) / 8;
+                let alen = if odd { let k = r.below(2) as usize; nb + 1 - 2 * k.min(nb) } else { nb };
+                let mut a = r.bytes(alen);
+                if !a.is_empty() && src % 8 != 0 && !r.chance(1, 8) { let k = a.len() - 1; a[k] &= 0xffu8 << (8 - src % 8); }
+                let mut d = fam.to_be_bytes().to_vec(); d.push(src); d.push(scope); d.extend_from_slice(&a); d
+            }
+            9 => { let n = if odd { *r.pick(&[1usize, 3, 5, 8]) } else { 4 * r.below(2) as usize }; r.bytes(n) }
+            10 => { let n = if odd { *r.pick(&[0usize, 7, 9, 15, 41, 48]) } else { *r.pick(&[8usize, 16, 17, 24, 32, 40]) }; r.bytes(n) }
+            11 => { let n = if odd { *r.pick(&[1usize, 3, 4]) } else { 2 * r.below(2) as usize }; r.bytes(n) }
+            13 => { let mut n = gen_name(r); if odd { match r.below(3) { 0 => n.push(0), 1 => { n.pop(); n.extend_from_slice(&[0xc0, 0]); } _ => { n.pop(); } } } n }
+            15 => { if odd && r.chance(1, 2) { let n = r.below(2) as usize; r.bytes(n) } else {
+                        let c = match r.below(3) { 0 => r.below(30) as u16, 1 => 0xffff, _ => r.u16() };
+                        let mut d = c.to_be_bytes().to_vec(); d.extend_from_slice(&utf8ish(r)); d } }
+            _ => { let n = match r.below(8) { 0 => 0, 1 => 1, 2 => 600, 3 => 4000, _ => r.below(40) as usize }; r.bytes(n) }
+        }
+    }
+
+    /// one option: (code, data) -> accepted?
+    pub fn option_case(out: &mut Out, code: u16, data: &[u8], must_parse: bool, kind: &str) -> bool {
+        let case = format!("edns {} {}", code, hex(data));
+        out.begin(&case);
+        out.oracle_case(&case, true, kind);
+        let raw = frame(code, data);
+        let o = match parse_one(&raw) {
+            Err(e) => { chk(out, false, &format!("opt_panic_{}", cname(code)), &case, &e); return false; }
+            Ok(Some(Ok(o))) => o,
+            Ok(_) => { if must_parse { chk(out, false, &format!("opt_roundtrip_{}", cname(code)), &case, "option built by the constructor does not parse"); } return false; }
+        };
+        let on = oname(&o);
+        chk(out, u16::from(o.code().to_int()) == code && on == cname(code), &format!("opt_roundtrip_{}", on), &case, "option parsed as a different kind");
+        let (l, w) = match written(&o) { Ok(x) => x, Err(e) => { chk(out, false, &format!("opt_panic_{}", on), &case, &e); return false; } };
+        chk(out, l as usize == w.len(), &format!("opt_len_{}", on), &case, &format!("compose_len {} but compose_option wrote {} octets", l, w.len()));
+        // re-compose what parsed: parses to an equal option, and is a fixpoint
+        let raw2 = frame(code, &w);
+        match parse_one(&raw2) {
+            Ok(Some(Ok(o2))) => {
+                chk(out, same(&o, &o2), &format!("opt_roundtrip_{}", on), &case, &format!("re-composed option {} parses to a different option", hex(&w)));
+                let w2 = written(&o2).map(|x| x.1).unwrap_or_default();
+                chk(out, w2 == w, &format!("opt_roundtrip_{}", on), &case, "re-composition is not a fixpoint");
+            }
+            _ => chk(out, false, &format!("opt_roundtrip_{}", on), &case, &format!("re-composed option {} does not parse", hex(&w))),
+        }
+        true
+    }
+
+    /// several options in one OPT record: Opt::push, AllRecordData::Opt, and a real message
+    pub fn group_case(out: &mut Out, items: &[(u16, Vec<u8>)]) {
+        let case = format!("ednsgroup {}", items.iter().map(|(c, d)| format!("{}={}", c, hex(d))).collect::<Vec<_>>().join(","));
+        out.begin(&case);
+        out.oracle_case(&case, true, "edns_group");
+        let raws: Vec<Vec<u8>> = items.iter().map(|(c, d)| frame(*c, d)).collect();
+        let mut opts: Vec<AO> = vec![];
+        for raw in &raws { match parse_one(raw) { Ok(Some(Ok(o))) => opts.push(o), _ => return } }
+        // Opt::push, checking the growth per option
+        let mut opt = Opt::<Vec<u8>>::empty();
+        let mut expect = 0usize;
+        for o in &opts {
+            let l = match catch_mut(|| o.compose_len()) { Ok(l) => l, Err(_) => return };
+            if expect + 4 + l as usize > 65535 { return; }
+            match catch_mut(|| opt.push(o)) {
+                Ok(Ok(())) => {}
+                Ok(Err(_)) => { chk(out, false, &format!("opt_roundtrip_{}", oname(o)), &case, "Opt::push refused an option that fits"); return; }
+                Err(e) => { chk(out, false, &format!("opt_panic_{}", oname(o)), &case, &e); return; }
+            }
+            expect += 4 + l as usize;
+            chk(out, opt.len() == expect, &format!("opt_len_{}", oname(o)), &case, &format!("OPT data is {} octets after pushing, announced lengths give {}", opt.len(), expect));
+            if opt.len() != expect { return; }
+        }
+        check_list(out, &case, &opts, &opt, "Opt::push");
+        // as record data of AllRecordData
+        let built: Built = AllRecordData::Opt(opt.clone());
+        let wire = compose_plain(&built).unwrap_or_default();
+        chk(out, built.rdlen(false) == Some(wire.len() as u16) && wire.len() == opt.len(), "rdlen_OPT", &case, "rdlen of OPT");
+        match parse_at(41, &wire, 0, wire.len()) {
+            Ok(Ok(AllRecordData::Opt(p))) => { chk(out, p == opt, "roundtrip_OPT", &case, "OPT record data parses to different data");
+                                               chk(out, compose_plain(&AllRecordData::<&[u8], ParsedName<&[u8]>>::Opt(p)).ok() == Some(wire.clone()), "recompose_OPT", &case, "re-composed OPT differs"); }
+            _ => chk(out, false, "roundtrip_OPT", &case, &format!("OPT record data {} does not parse", hex(&wire))),
+        }
+        // through a real message
+        let res = catch_mut(|| -> Result<(), (String, String)> {
+            let mut mb = MessageBuilder::new_vec().additional();
+            if mb.opt(|ob| { for o in &opts { ob.push(o)?; } Ok(()) }).is_err() { return Ok(()); }
+            let bytes = mb.finish();
+            let msg = Message::from_octets(&bytes[..]).map_err(|_| ("opt_message".to_string(), "short message".to_string()))?;
+            let first = opts.first().map(|o| oname(o)).unwrap_or("EMPTY");
+            let rec = msg.opt().ok_or(("opt_message".to_string(), "Message::opt() returned None for a message built with AdditionalBuilder::opt".to_string()))?;
+            let got: Vec<_> = rec.opt().iter::<AllOptData<_, _>>().collect();
+            compare(&opts, &got).map_err(|(i, d)| (format!("opt_roundtrip_{}", opts.get(i).map(|o| oname(o)).unwrap_or(first)), format!("via message: {}", d)))
+        });
+        match res { Ok(Ok(())) => chk(out, true, "opt_message", &case, ""),
+                    Ok(Err((cls, d))) => chk(out, false, &cls, &case, &d),
+                    Err(e) => chk(out, false, "opt_panic_MESSAGE", &case, &e) }
+    }
+    fn compare(opts: &[AO], got: &[Result<AO, ParseError>]) -> Result<(), (usize, String)> {
+        for (i, o) in opts.iter().enumerate() {
+            match got.get(i) {
+                Some(Ok(g)) => if !same(o, g) { return Err((i, format!("option {} ({}) reads back as a different option ({})", i, oname(o), oname(g)))); },
+                Some(Err(e)) => return Err((i, format!("option {} ({}) reads back as {}", i, oname(o), perr(e)))),
+                None => return Err((i, format!("option {} ({}) is missing: {} of {} options read back", i, oname(o), got.len(), opts.len()))),
+            }
+        }
+        if got.len() != opts.len() { return Err((opts.len().saturating_sub(1), format!("{} options read back, {} pushed", got.len(), opts.len()))); }
+        Ok(())
+    }
+    fn check_list(out: &mut Out, case: &str, opts: &[AO], opt: &Opt<Vec<u8>>, how: &str) {
+        let raw = opt.for_slice_ref();
+        let got: Vec<_> = match catch_mut(|| raw.iter::<AllOptData<_, _>>().collect::<Vec<_>>()) { Ok(g) => g, Err(e) => { chk(out, false, "opt_panic_ITER", case, &e); return; } };
+        match compare(opts, &got) {
+            Ok(()) => chk(out, true, "opt_roundtrip", case, ""),
+            Err((i, d)) => chk(out, false, &format!("opt_roundtrip_{}", opts.get(i).map(|o| oname(o)).unwrap_or("EMPTY")), case, &format!("{}: {}", how, d)),
+        }
+    }
+
+    /// OPT data may hold 65535 octets including the four header octets of every option
+    fn push_limit_case(out: &mut Out, first: usize, second: Option<usize>) {
+        let case = format!("ednspush {} {}", first, second.map(|x| x.to_string()).unwrap_or("-".into()));
+        out.begin(&case);
+        out.oracle_case(&case, true, "edns_push_limit");
+        let res = catch_mut(|| {
+            let mut opt = Opt::<Vec<u8>>::empty();
+            let mut accepted = vec![];
+            accepted.push(opt.push(&Nsid::from_octets(vec![1u8; first]).unwrap()).is_ok());
+            if let Some(k) = second { accepted.push(opt.push(&Padding::from_octets(vec![0u8; k]).unwrap()).is_ok()); }
+            (opt.len(), accepted, catch_mut(|| opt.rdlen(false)))
+        });
+        match res {
+            Ok((len, accepted, rl)) => {
+                chk(out, len <= 65535, "opt_push_long", &case, &format!("Opt::push accepted {:?}: OPT data is {} octets, rdlen -> {}", accepted, len, show_rdlen(&rl)));
+                if len <= 65535 { chk(out, rl == Ok(Some(len as u16)), "rdlen_OPT", &case, "rdlen of OPT"); }
+                // what fits must be accepted
+                let fits1 = first + 4 <= 65535;
+                // an option that fits must not be refused (one that does not fit shows up as opt_push_long above)
+                chk(out, accepted[0] || !fits1, "opt_push_refused", &case, &format!("first push accepted={} fits={}", accepted[0], fits1));
+            }
+            Err(e) => chk(out, false, "opt_panic_PUSH", &case, &e),
+        }
+    }
+
+    fn opts_tok(l: &[(u16, Vec<u8>)]) -> String {
+        if l.is_empty() { ".".into() } else { l.iter().map(|(c, d)| format!("{}={}", c, hex(d))).collect::<Vec<_>>().join(",") }
+    }
+    /// T2: Opt::push of raw options (UnknownOptData accepts every code)
+    pub fn optframe_case(out: &mut Out, l: &[(u16, Vec<u8>)], kind: &str) {
+        let case = format!("optframe {}", opts_tok(l));
+        out.begin(&case);
+        let res = catch_mut(|| {
+            let mut opt = Opt::<Vec<u8>>::empty();
+            for (c, d) in l {
+                let o = UnknownOptData::new(OptionCode::from_int(*c), d.clone()).ok()?;
+                opt.push(&o).ok()?;
+            }
+            Some(opt)
+        });
+        let obs = match &res { Ok(Some(o)) => hex(&compose_plain(o).unwrap_or_default()), Ok(None) => "Reject".to_string(), Err(_) => "Panic".to_string() };
+        out.case(&case, &obs, !matches!(res, Ok(None)), kind);
+        if let Ok(Some(o)) = &res {
+            let expect: usize = l.iter().map(|(_, d)| 4 + d.len()).sum();
+            chk(out, o.len() == expect, "opt_len_UNKNOWN", &case, "framed length is not the sum of 4 + data lengths");
+            chk(out, o.len() <= 65535, "opt_push_long", &case, &format!("Opt::push accepted everything: OPT data is {} octets", o.len()));
+        }
+    }
+    /// T2: Opt::from_octets + iteration
+    pub fn optparse_case(out: &mut Out, m: &[u8], kind: &str) {
+        let case = format!("optparse {}", hex(m));
+        out.begin(&case);
+        let res = catch_mut(|| -> Result<Vec<(u16, Vec<u8>)>, ParseError> {
+            let opt = Opt::from_octets(m)?;
+            let mut v = vec![];
+            for o in opt.iter::<UnknownOptData<_>>() { let o = o?; v.push((o.code().to_int(), o.as_slice().to_vec())); }
+            Ok(v)
+        });
+        let obs = match &res { Ok(Ok(v)) => format!("Ok {}", opts_tok(v)), Ok(Err(e)) => perr(e).to_string(), Err(_) => "Panic".to_string() };
+        out.case(&case, &obs, matches!(res, Ok(Ok(_))), kind);
+        if let Err(e) = &res { chk(out, false, "opt_panic_ITER", &case, e); }
+    }
+
+    /// options made with the typed constructors
+    fn constructed(out: &mut Out, r: &mut Rng) -> Vec<(u16, Vec<u8>)> {
+        let mut res = vec![];
+        macro_rules! put { ($name:expr, $o:expr) => {{
+            let o = $o; let case = format!("ednsctor {}", $name);
+            match written(&o) {
+                Ok((l, w)) => { chk(out, l as usize == w.len(), &format!("opt_len_{}", $name), &format!("{} {}", case, hex(&w)), &format!("compose_len {} but {} octets written", l, w.len()));
+                                res.push((o.code().to_int(), w)); }
+                Err(e) => chk(out, false, &format!("opt_panic_{}", $name), &case, &e),
+            }
+        }}}
+        for n in [0usize, 1, 255, 4000] { put!("NSID", Nsid::from_octets(r.bytes(n)).unwrap()); put!("PADDING", Padding::from_octets(r.bytes(n)).unwrap()); }
+        for n in [0usize, 2, 40] { put!("DAU", Dau::from_octets(r.bytes(n)).unwrap()); put!("DHU", Dhu::from_octets(r.bytes(n)).unwrap());
+                                   put!("N3U", N3u::from_octets(r.bytes(n)).unwrap()); put!("KEYTAG", KeyTag::from_octets(r.bytes(n)).unwrap()); }
+        put!("EXPIRE", Expire::new(None)); put!("EXPIRE", Expire::new(Some(r.u32()))); put!("EXPIRE", Expire::new(Some(u32::MAX)));
+        put!("KEEPALIVE", TcpKeepalive::new(None)); put!("KEEPALIVE", TcpKeepalive::new(Some(IdleTimeout::from(r.u16()))));
+        let mut cc = [0u8; 8]; cc.copy_from_slice(&r.bytes(8));
+        put!("COOKIE", Cookie::new(ClientCookie::from_octets(cc), None));
+        for n in [8usize, 16, 32] { put!("COOKIE", Cookie::new(ClientCookie::from_octets(cc), Some(ServerCookie::from_octets(&r.bytes(n))))); }
+        for _ in 0..6 { let n: DN = Name::from_octets(gen_name(r)).unwrap(); put!("CHAIN", Chain::new(n)); }
+        for _ in 0..24 {
+            let v4 = r.chance(1, 2);
+            let addr: IpAddr = if v4 { let b = r.bytes(4); IpAddr::from([b[0], b[1], b[2], b[3]]) } else { let b = r.bytes(16); let mut a = [0u8; 16]; a.copy_from_slice(&b); IpAddr::from(a) };
+            let src = *r.pick(&[0u8, 1, 7, 8, 9, 23, 24, 25, 31, 32, 33, 56, 64, 127, 128, 129, 255]);
+            put!("SUBNET", ClientSubnet::new(src, r.u8(), addr));
+        }
+        for t in [None, Some(""), Some("blocked"), Some("caf\u{e9} \u{20ac}")] {
+            let text = t.map(|s| octseq::str::Str::from_utf8(s.as_bytes().to_vec()).unwrap());
+            put!("EXTERR", ExtendedError::new(ExtendedErrorCode::from_int(r.u16()), text).unwrap());
+        }
+        for c in [0u16, 16, 4711, 65535] { let k = r.below(30) as usize; put!("UNKNOWN", UnknownOptData::new(OptionCode::from_int(c), r.bytes(k)).unwrap()); }
+        res
+    }
+
+    pub fn run(out: &mut Out, r: &mut Rng, n: u64) {
+        let mut pool: Vec<(u16, Vec<u8>)> = vec![];
+        // corpus: an Extended DNS Error whose EXTRA-TEXT is Latin-1, followed by another option
+        let latin1 = (15u16, vec![0, 15, b'c', b'a', b'f', 0xe9]);
+        option_case(out, latin1.0, &latin1.1, false, "corpus");
+        group_case(out, &[latin1.clone(), (3, b"ns1".to_vec())]);
+        group_case(out, &[(10, vec![1; 8]), latin1.clone(), (12, vec![0; 5]), (8, vec![0, 1, 24, 0, 192, 0, 2])]);
+        for (c, d) in constructed(out, r) { if option_case(out, c, &d, true, "edns_ctor") { pool.push((c, d)); } }
+        for &code in CODES.iter() {
+            for _ in 0..(n / 2).max(20) {
+                let d = gen_data(r, code);
+                if option_case(out, code, &d, false, &format!("edns_{}", cname(code))) && d.len() < 5000 { pool.push((code, d)); }
+            }
+        }
+        // an option at the size limit
+        option_case(out, 3, &vec![7u8; 65531], false, "edns_max");
+        for _ in 0..(2 * n) {
+            let k = 1 + r.below(5) as usize;
+            let items: Vec<(u16, Vec<u8>)> = (0..k).map(|_| r.pick(&pool).clone()).collect();
+            group_case(out, &items);
+        }
+        group_case(out, &[]);
+        // T2: framing
+        optframe_case(out, &[], "corpus");
+        optframe_case(out, &[(15, vec![0, 15, b'c', b'a', b'f', 0xe9]), (3, vec![])], "corpus");
+        optparse_case(out, &[0, 15, 0, 6, 0, 15, 0, 3, 0, 0], "corpus");
+        optparse_case(out, &[0, 15, 0, 7, 0, 15, 0, 3, 0, 0], "corpus");
+        for (a, b) in [(65531usize, None), (65531, Some(0usize)), (65532, None), (65535, None), (65527, Some(0)), (30000, Some(35527)), (30000, Some(35528))] {
+            let mut l = vec![(3u16, vec![1u8; a])];
+            if let Some(k) = b { l.push((12, vec![0u8; k])); }
+            optframe_case(out, &l, "optframe_limit");
+        }
+        for i in 0..(3 * n) {
+            let k = r.below(5) as usize;
+            let items: Vec<(u16, Vec<u8>)> = (0..k).map(|_| { let (c, d) = r.pick(&pool).clone(); (if r.chance(1, 4) { r.u16() } else { c }, d) }).collect();
+            optframe_case(out, &items, "optframe");
+            let mut raw: Vec<u8> = items.iter().flat_map(|(c, d)| frame(*c, d)).collect();
+            match i % 4 {
+                0 => {}
+                1 if !raw.is_empty() => { let j = r.below(raw.len() as u64) as usize; raw.truncate(j); }
+                2 if !raw.is_empty() => { let j = r.below(raw.len() as u64) as usize; raw[j] = r.u8(); }
+                _ => { let m = r.below(12) as usize; raw = r.bytes(m); }
+            }
+            optparse_case(out, &raw, "optparse");
+        }
+        for (a, b) in [(65531usize, None), (65531, Some(0usize)), (65532, None), (65535, None), (65527, Some(0)), (65526, Some(1)), (65527, Some(1)), (30000, Some(35527)), (30000, Some(35528))] {
+            push_limit_case(out, a, b);
+        }
+    }
+}
+
 fn main() {
     let a = args();
     let mut out = Out::new(&a, "C05", 60);
@@ -797,5 +1158,6 @@ fn main() {
         }
     }
     irregular::run(&mut out, &mut r, n);
+    edns::run(&mut out, &mut r, n);
     out.finish(&[]);
 }
